@@ -30,8 +30,10 @@ def run(rep, work, tier, seed, only=None):
         raise RuntimeError('c10 driver failed: ' + r.stderr[-3000:])
     tags = json.load(open(os.path.join(outdir, 'C10_INDEX.json')))
     files = []
+    alone = {}
     for tag in tags:
         rec = json.load(open(os.path.join(outdir, 'c10_%s.json' % tag)))
+        alone[(rec['cls'], tuple(rec['size']))] = rec
         code = cc.load(outdir, tag)
         n, m = code['n'], len(code['H'])
         face = [not z for z in code['z_indices']]
@@ -86,6 +88,40 @@ def run(rep, work, tier, seed, only=None):
             f = os.path.join(work, 'c10t_%s_%03d.v' % (tag.replace('-', '_'), ci // per))
             open(f, 'w').write(''.join(lines))
             files.append((f, 'trace', sub))
+    # histories: a decoder used after decoders of another lattice class of the same size must behave as when used alone
+    # (its stand-alone behaviour is what the kernel-checked obligations above are about)
+    for h in json.load(open(os.path.join(outdir, 'c10_hist.json'))):
+        for pos, st in enumerate(h['steps']):
+            rec = alone[(st['cls'], tuple(h['size']))]
+            rep.case(('history', tuple(h['history']), tuple(h['size']), pos), pos > 0)
+            rep.count('history-step')
+            key = {'site': 'history', 'cls': st['cls'], 'decoder': h['decoder'], 'size': 'x'.join(map(str, h['size']))}
+            rep.oblige(1)
+            bad = None
+            for (q, tog, vals), (q0, tog0, vals0) in zip(st['geom'], rec['geom']):
+                if tog != tog0 or vals != vals0:
+                    bad = 'flip_edge on edge %d toggles %s (stand-alone: %s)' % (q, tog, tog0)
+                    break
+            if bad is None:
+                first = {tuple(t['z']): t for t in rec['traces'] if t['tiebreak_seed'] == 0 and len(t['z']) == 1}
+                for q, cx, cz in st['decodes']:
+                    t = first.get((q,))
+                    if t is None:
+                        continue
+                    if isinstance(cx, str) or 'error' in t:
+                        if isinstance(cx, str) != ('error' in t):
+                            bad = 'decode of Z on edge %d: %s (stand-alone: %s)' % (q, cx, t.get('error', 'no exception'))
+                            break
+                        continue
+                    if cx != t['final_x'] or cz != t['final_z']:
+                        bad = 'decode of Z on edge %d returns Z on %s (stand-alone, same tie-break seed: Z on %s)' % (q, cz, t['final_z'])
+                        break
+            if bad is None:
+                rep.oblige(0, 1)
+            else:
+                rep.violation(dict(key, clause='history'),
+                              '%s %s, step %d of the history %s in one process: %s' % (st['cls'], h['size'], pos + 1, ' -> '.join(h['history']), bad),
+                              {'history': h['history'], 'size': h['size'], 'decoder': h['decoder'], 'step': pos, 'what': bad})
     res = coqc_many([f for f, _, _ in files], timeout=1200)
     import gf2
     for f, kind, sub in files:
